@@ -253,7 +253,7 @@ func ObsSearch(srs *core.SearchResults) map[string][]string {
 	for _, sr := range srs.Found {
 		var bss []string
 		for _, bs := range sr.Bindingss {
-			bss = append(bss, Canon(map[string]interface{}(bs)))
+			bss = append(bss, CanonSet(map[string]interface{}(bs)))
 		}
 		sort.Strings(bss)
 		key := sr.Id
@@ -286,7 +286,7 @@ func ObsDispatch(fr *core.FindRules) map[string][]string {
 	for _, c := range fr.Children {
 		var bss []string
 		for _, bs := range c.Bindingss {
-			bss = append(bss, Canon(StripEnv(bs)))
+			bss = append(bss, CanonSet(StripEnv(bs)))
 		}
 		sort.Strings(bss)
 		id := ""
